@@ -50,6 +50,9 @@ PropNames == {"verifProp", "from", "class", "import", "global", "@self"}
 \* alternative, a params type of an envelope
 Targets == {"Color", "TextDocumentPositionParams", "Position", "MarkedStringWithLanguage", "HoverParams"}
 Marks == {"proposed", "deprecated", "since"}
+\* what a textual mark (deprecated, since) says: one line; several lines; several lines broken Windows-style; text with the
+\* characters that end a comment or a string literal in one of the target languages
+MarkTexts == {"plain", "multiline", "crlf", "quotes"}
 
 TypedKinds == {"none", "suffixed", "plain"}
 Edits ==
@@ -64,7 +67,8 @@ Edits ==
     \cup {[k |-> "AddRequest", typed |-> ty, params |-> p, result |-> r] :
             ty \in TypedKinds, p \in {"none", "ref"}, r \in {"ref", "orNull", "null", "enumArray"}}   \* enumArray: a closed enum reached through containers only
     \cup {[k |-> "AddNotification", typed |-> ty, params |-> p] : ty \in TypedKinds, p \in {"none", "ref"}}
-    \cup {[k |-> "Mark", on |-> w, mark |-> m] : w \in {"structure", "property", "enumValue", "request"}, m \in Marks}
+    \cup {[k |-> "Mark", on |-> w, mark |-> m, text |-> tx] :
+            w \in {"structure", "property", "enumValue", "request"}, m \in Marks, tx \in MarkTexts}
     \cup {[k |-> "RemoveOptionalProperty", target |-> t] : t \in {"Hover", "CompletionItem", "Diagnostic"}}
 
 VARIABLES svScript
@@ -133,7 +137,12 @@ QuickOK(e) ==
                                \/ (e.typed = "plain" /\ e.params = "ref" /\ e.result = "ref")
       [] e.k = "AddNotification" -> (e.typed = "suffixed" /\ e.params = "ref") \/ (e.typed = "none" /\ e.params = "none")
                                     \/ (e.typed = "plain" /\ e.params = "ref")
-      [] e.k = "Mark" -> (e.mark = "proposed" /\ e.on # "request") \/ (e.on = "structure" /\ e.mark = "since")
+      [] e.k = "Mark" -> \/ (e.mark = "proposed" /\ e.on # "request" /\ e.text = "plain")
+                         \/ (e.on = "structure" /\ e.mark = "since" /\ e.text \in {"plain", "crlf"})
+                         \/ (e.on = "property" /\ e.mark = "deprecated" /\ e.text \in {"multiline", "quotes"})
+                         \/ (e.on = "property" /\ e.mark = "since" /\ e.text \in {"crlf", "quotes"})
+                         \/ (e.on = "enumValue" /\ e.mark = "since" /\ e.text \in {"crlf", "quotes"})
+                         \/ (e.on = "enumValue" /\ e.mark = "deprecated" /\ e.text = "quotes")
       [] e.k = "RemoveOptionalProperty" -> e.target # "Diagnostic"
       [] OTHER -> TRUE
 
